@@ -120,6 +120,21 @@ CHECKS.update({
             "postconditions of the comparison functions for single edits; z3 / concrete evaluation through the interpreter"),
 })
 
+E2E = (" Above the leaf: (a) composite level - the real BasicStructure/Request/Response encode/decode loops over abstract "
+       "parameters that satisfy the Codec interface contract (paired encode/decode harness); (b) end-to-end - ~27 real "
+       "parameter descriptions built natively (coded constants, value parameters with IDENTICAL/LINEAR methods, reserved, "
+       "matching-request, NRC-const, physical constants, system parameters, nested structures, end-of-PDU / static / "
+       "dynamic-length fields, MIN-MAX-LENGTH, LEADING-LENGTH-INFO, multiplexer, TABLE-KEY/TABLE-STRUCT, DTC DOPs) are "
+       "run through the real Request/Response.encode and decode with values and message bytes symbolic; these are "
+       "labelled B (27 concrete descriptions, field/byte-field lengths bounded; values symbolic) and are reported as "
+       "bounded checks, never counted as proved. "
+       "PARAM-LENGTH-INFO, dynamic end-marker fields and environment data are not covered.")
+for k in ("C01","C02","C03","C04","C05","C08"):
+    CHECKS[k] = (CHECKS[k][0] + E2E, CHECKS[k][1] + "; Codec interface contract for composites; end-to-end harnesses over real descriptions")
+CHECKS["C17"] = (CHECKS["C17"][0] + " Restoration: whatever passes in strict mode gives the same result in lenient mode "
+                 "(encode and decode of the end-to-end descriptions run twice, results compared), and switching the flag "
+                 "back restores the error.", CHECKS["C17"][1] + "; 2-run comparison harness over the end-to-end descriptions")
+
 NOT_APPLICABLE = {
     "C11": "PDX write->load round trip is a property of Jinja2 template text plus the ElementTree infoset; neither is "
            "Python code on which a contract can be stated or from which a VC can be generated (DESIGN.md 5 C11)",
@@ -170,7 +185,7 @@ def main():
         }],
         "checks": checks,
         "not_applicable": sorted(na, key=lambda x: x["property_id"]),
-        "notes": "known_findings.json lists the genuine defects found: repaired ones (fix: commits) and one open finding (C06, services without constant prefix).",
+        "notes": "known_findings.json lists the genuine defects found: repaired ones (fix: commits) and the open ones (C06 services without constant prefix; C04/C08 STANDARD-LENGTH-TYPE bit masks; C01 TABLE-KEY with static row), each matched by obligation + witness class.",
     }
     with open(os.path.join(ROOT, "MANIFEST.json"), "w") as f:
         json.dump(m, f, indent=1)
